@@ -4,6 +4,7 @@ UNITS = {
     'SESSION': dict(template='session.rs', rlimit=40),
     'LINKFLOW': dict(template='linkflow.rs', rlimit=30),
     'FRAMEENC': dict(template='frameenc.rs', rlimit=60),
+    'CONN': dict(template='conn.rs', rlimit=30),
 }
 
 COMMON_TRUSTED = [
@@ -11,6 +12,22 @@ COMMON_TRUSTED = [
     'extractor /verif/vlib (token-level rewrite rules R1-R22, logged per function in this file)',
     'vstd specifications of Vec, VecDeque, Option, Result, integer wrapping_*/saturating_*/checked_*',
 ]
+
+def _k(harness, target, claim, complete, bound='', tier='quick', timeout=900, crate='codec', **kw):
+    return dict(crate=crate, harness=harness, target=target, claim=claim, complete=complete, bound=bound, tier=tier, timeout=timeout,
+                trusted=['Kani 0.68 / CBMC 6.11 on the unmodified serde_amqp crate (path dependency on /repo)'], **kw)
+
+
+PRIMS = ['u8', 'u16', 'u32', 'u64', 'i8', 'i16', 'i32', 'i64', 'bool', 'char', 'f32', 'f64', 'unit']
+K_RT = [_k('rt_%s' % t, 'serde_amqp::{to_vec,from_slice,serialized_size}::<%s>' % t,
+           'for EVERY value x of %s: to_vec(x) == the smallest AMQP 1.0 encoding per the spec table (constructor, big-endian width); serialized_size(x) == |to_vec(x)|; from_slice(to_vec(x)) == x (bit-equal for floats)' % t,
+           True) for t in PRIMS]
+K_DEC = [_k('dec_%s_variants' % t, 'serde_amqp::from_slice::<%s>' % t,
+            'every spec-valid width variant of %s with symbolic content decodes to the value the spec assigns' % t, True)
+         for t in ['u32', 'u64', 'i32', 'i64', 'bool']]
+K_TOTAL3 = [_k('total3_%s' % t, 'serde_amqp::from_slice::<%s>' % t,
+               'every byte string of length <= 3 decodes as %s to Ok or Err: no panic, no arithmetic overflow' % t, False,
+               bound='input length <= 3 bytes (all 2^24+ strings)') for t in ['u32', 'u64', 'i32', 'i64', 'bool', 'u8', 'u16', 'char']]
 
 ASYNC = 'async fn bodies are verified with .await erased (R3): sound for the state reached through the exclusive &mut self borrow, says nothing about interleavings through shared Arc state or cancellation'
 ENGINE = 'that the tokio engine tasks (select! loops, mpsc channels) call these functions once per frame in arrival order is not verified'
@@ -51,8 +68,20 @@ PROPS = {
             'parking_lot::RwLock and Arc<AtomicU32> erased: disposal concurrent with recv from another task is not modelled',
             'ReceiverLink::on_complete_transfer calling consume(1) before building the delivery, ReceiverInner::update_credit_if_auto and set_credit are not under contract yet',
             'the overrun error being turned into a detach frame by the link/engine is not verified']),
+    'C12': dict(
+        units=['CONN'], kani=[], level='proof', title='Connection lifecycle',
+        assumptions=[ASYNC,
+            'that the connection engine event loop (select!) drives only these transition functions, and calls send_open/send_close once each, is not verified',
+            'send_open / send_close put the frame on the wire before checking the state (an illegal-state call still emits a frame): "at most once" therefore rests on the engine calling them only in the states listed in the contract',
+            'header-before-open (transport protocol-header exchange), a peer close always being answered, handle results, EOF handling and flushing of queued frames are liveness/glue and are NOT decided',
+            'the DISCARDING prefix of ConnectionEngine::on_incoming is not under contract yet']),
+    'C17': dict(
+        units=['CONN'], kani=[], level='proof', title='Negotiated limits (channel-max part)',
+        assumptions=[
+            'ONLY channel-max is decided. The idle time-out sentences (heartbeats within the peer\'s idle-time-out, local time-out teardown) are timed behaviour of tokio Interval/Sleep and have no contract here (no clock in either verifier) -- see DESIGN D10',
+            'slab::Slab modelled as a partial map whose vacant key is unoccupied']),
     'C11': dict(
-        units=['SESSION', 'FRAMEENC'], kani=[], level='proof', title='Identifiers',
+        units=['SESSION', 'FRAMEENC', 'CONN'], kani=[], level='proof', title='Identifiers',
         assumptions=[ASYNC, ENGINE,
             'fewer than 2^32 link handles are live in one session (handle = slab key as u32)',
             'slab::Slab is modelled as a partial map whose vacant key is unoccupied (trusted stand-in)',
@@ -63,7 +92,7 @@ PROPS = {
             'answered-no-later-than / returns-only-after clauses of the property are liveness statements and are not decided',
             'Drop impls racing with the engine are not decided']),
     'C15': dict(
-        units=['SESSION'], kani=[], level='proof', title='Misbehaving peer',
+        units=['SESSION', 'CONN'], kani=[], level='proof', title='Misbehaving peer',
         assumptions=[ASYNC, ENGINE,
             'never-blocks-forever and isolation between connections are not decided',
             'handlers of peer input carry no precondition on the peer-controlled arguments']),
